@@ -369,6 +369,9 @@ func runC20(r *core.Run) {
 			}
 		}
 		r.Eval("addr|"+strings.Join(strings.FieldsFunc(pat, func(r rune) bool { return r != ':' && r != '.' }), ""), partial)
+		if c.Index < 3 {
+			r.Sample(map[string]any{"loop": "address", "pattern": pat, "partial": partial, "account_fragment": frag, "transaction_fragment": tfrag})
+		}
 	})
 	// (b) lateral push-down safety
 	r.ForEach("lateral", r.N(20000, 300000), 0, func(c *core.Case) {
@@ -484,6 +487,9 @@ func runC20(r *core.Run) {
 			return
 		}
 		r.Count("lateral_sql_pushed", 1)
+		if c.Index < 40 && len(pushed) > 0 && hasIn {
+			r.Sample(map[string]any{"loop": "lateral-sql", "resource": resource, "filter": string(js), "restriction_inside_the_lateral_join": pushed})
+		}
 		if hasIn {
 			r.Count("lateral_sql_pushed_with_in_leaf", 1)
 		}
